@@ -74,6 +74,12 @@ CHECKS["C14"] = {
     "note": "Duality laws as value statements are not decided beyond these shapes. Trusted: std adaptor models, str::chars semantics, C06.",
     "technique": "exact-negation rule, two-level variant specialisation, path-existence rules on per-element closures, constant-under-edge reading, provenance",
 }
+CHECKS["C12"] = {
+    "level": "other",
+    "text": "The functions bound to var, missing and missing_some (with their helper functions) hand the data only to the one shared lookup (plus var's whole-data clone) and never branch on the data's kind; keys pass the same KeyType gate; absence is the lookup's Option discriminant. Per key, by specialisation on the key kind, a null key is neither looked up, pushed nor counted; every push onto the missing list is edge-dominated by the not-found edge and appends a clone of the key element (missing_some additionally guarded by !contains); the present count is a fold/counter whose +1 is edge-dominated by the found edge of the current key's lookup; missing_some's test is `present >= threshold` with the empty array on the true edge and the missing list on the false edge; missing takes the key list from operand 0's elements exactly on its Array edge.",
+    "note": "Agreement of results on every data tree beyond the shared mechanism is value-level and not decided.",
+    "technique": "provenance-based who-touches-the-data rule, variant specialisation of per-key code, edge-dominance typestate for counter and pushes, comparison-operator reading",
+}
 NOT_APPLICABLE = {}
 for i in range(1, 20):
     p = "C%02d" % i
